@@ -352,13 +352,14 @@ def diff_state(label: str, impl: dict, model: dict, skip_procs: bool = False) ->
     return None
 
 
-def follow_up(rig: R.ReloadRig, model: Model | None) -> None:
+def follow_up(rig: R.ReloadRig, model: Model | None, stay_down: bool = False) -> None:
     """After a reload: let established peers run (loop top, transmission, teardown), then establish
-    whatever is configured and not established, and drain.  Both sides follow their own state."""
+    whatever is configured and not established, and drain.  Both sides follow their own state.
+    `stay_down`: nothing is established again (the next reload finds the sessions this one ended still down)."""
     rig.settle()
     for a in NAMES:
         peer = rig.peer(a)
-        if peer is None:
+        if peer is None or stay_down:
             continue
         for _ in range(3):
             if rig.establish(a) == 'up':
@@ -373,6 +374,8 @@ def follow_up(rig: R.ReloadRig, model: Model | None) -> None:
             model.drain(a)
         elif p[2] and p[3]:
             model.ask(f'reload lost {a}')
+    if stay_down:
+        return
     for a in NAMES:
         for _ in range(3):
             p = model.peers().get(a)
@@ -527,7 +530,7 @@ def run_scenario(sc: dict, drv: common.Driver | None) -> dict:
                     if model.sessions.get(a):
                         model.sessions[a][-1].extend(evs)
             if not sc.get('no_sessions'):
-                follow_up(rig, model)
+                follow_up(rig, model, stay_down=bool(step.get('stay_down')))
             check(f'after the follow-up of {where}')
             # ---- oracle --------------------------------------------------------------------------
             fclass = fault_class(step)
@@ -536,6 +539,8 @@ def run_scenario(sc: dict, drv: common.Driver | None) -> dict:
                 cur = by_name(running)
                 if (not adj_off or sc.get('adj_off_tables')) and not sc.get('no_sessions'):
                     for nb in step['new']['nbrs']:
+                        if step.get('stay_down') and not (rig.peer(nb['name']) is not None and rig.peer(nb['name']).established()):
+                            continue  # the session this reload ended is still down: its table is judged after the next one
                         a = nb['name']
                         allowed = allowed_after(cur.get(a), nb, due.get(a, {}), owned.get(a, set()))
                         t = rig.table(a)
@@ -553,6 +558,10 @@ def run_scenario(sc: dict, drv: common.Driver | None) -> dict:
                 for nb in running['nbrs']:
                     a = nb['name']
                     t = rig.table(a) if not sc.get('no_sessions') else dict(live_routes(nb))
+                    if step.get('stay_down') and not (rig.peer(a) is not None and rig.peer(a).established()):
+                        # nobody holds a table: what the peer is due is the new file plus the API routes still valid
+                        t = dict(live_routes(nb))
+                        t.update({n: v for n, v in due.get(a, {}).items() if n in owned.get(a, set())})
                     newt = live_routes(nb)
                     newdue[a] = dict(t)
                     newowned[a] = {n for n in owned.get(a, set()) if a in cur and t.get(n) is not None and (n not in newt or t[n] != newt[n])}
@@ -862,6 +871,39 @@ def resync_scenarios(rng: Any, count: int) -> list[dict]:
     return out
 
 
+def down_reload_scenarios(rng: Any, count: int) -> list[dict]:
+    """Reloads which find the session DOWN: the first one changes a session parameter (the session is ended for a
+    re-establishment) and the routes, the peer is kept from coming back (`stay_down`), one or two more reloads change
+    routes only; then the peer comes back.  What every reload removed must stay removed (F106)."""
+    out = []
+    for _ in range(count):
+        fams = [1, 2]
+        routes = gen_routes(rng, fams, rng.choice([2, 3, 4]))
+        nb = {'name': 1, 'key': 1, 'fams': fams, 'routes': routes}
+        old = {'procs': [1], 'nbrs': [nb]}
+        steps = []
+        cur = copy.deepcopy(routes)
+        key = 1
+        for k in range(rng.choice([2, 2, 3])):
+            cur = copy.deepcopy(cur)
+            if k == 0:
+                key = 2 if rng.random() < 0.7 else 1
+            x = rng.random()
+            if x < 0.6 and len(cur) > 1:
+                cur.pop(rng.randrange(len(cur)))
+            elif x < 0.85:
+                i = rng.randrange(len(cur))
+                cur[i] = [cur[i][0], 1 + cur[i][1] % 3, cur[i][2]]
+            else:
+                free = [n for n in ribrig.NLRIS if ribrig.NLRI_FAM[n] in fams and n not in (5, 8) and n not in {r[0] for r in cur}]
+                if free:
+                    cur.append([rng.choice(free), rng.choice([1, 2, 3]), rng.choice([1, 2])])
+            steps.append({'flap': [1] if k == 0 and key == 1 else [], 'api': [], 'mode': 'settled', 'new': {'procs': [1], 'nbrs': [dict(nb, key=key, routes=cur)]}, 'stay_down': True})
+        steps[-1].pop('stay_down')
+        out.append({'old': old, 'up': [1], 'steps': steps})
+    return out
+
+
 def adj_off_scenarios(rng: Any, count: int) -> list[dict]:
     """`adj-rib-out false` (nothing is kept of what was sent; the configured routes are what a new session sends): a
     neighbor with an ESTABLISHED session, one reload that removes, changes and adds routes, no API command, no
@@ -1019,6 +1061,7 @@ def run(ctx: Ctx) -> None:
         cases += [(v, 'every-line') for v in every_line(base)]
     cases += [(sc, 'resync') for sc in resync_scenarios(rng, 12 if ctx.tier == 'quick' else 300)]
     cases += [(sc, 'adj-off') for sc in adj_off_scenarios(rng, 10 if ctx.tier == 'quick' else 200)]
+    cases += [(sc, 'down-reload') for sc in down_reload_scenarios(rng, 14 if ctx.tier == 'quick' else 300)]
     for i in range(ncases):
         cases.append((gen_scenario(rng), 'random'))
     drv = common.Driver('drv_reload') if ctx.driver_ok else None
